@@ -261,6 +261,13 @@ structure WF (d : Doc) : Prop where
         (fun p => p < i ∧ i < d.endOf p ∧ d.isAttr p = false ∧ ∀ x, x < d.length → p < x → x < i → d.endOf x ≤ i) True
   w8 : ∀ i, i < d.length → d.isAttr i = false → d.endOf i < d.length → d.isAttr (d.endOf i) = false
   wA : ∀ n, n < d.length → ∀ m, m < d.length → (d.ancestors m).contains n = (decide (n < m) && decide (m < d.endOf n))
+  /-- node 0 is the root: no parent, not an attribute, its subtree is the whole table -/
+  w0 : d.parentOf 0 = none ∧ d.isAttr 0 = false ∧ d.endOf 0 = d.length
+  /-- an attribute has no subtree, its owner is not the root node, and only attributes lie between the owner and it -/
+  w9 : ∀ i, i < d.length → d.isAttr i = true → d.endOf i = i + 1 ∧
+        onOpt (d.parentOf i) (fun p => 0 < p ∧ ∀ j, j < d.length → p < j → j < i → d.isAttr j = true) False
+  /-- attributes belong to elements -/
+  w10 : ∀ i, i < d.length → d.isAttr i = true → onOpt (d.parentOf i) (fun p => d.kindOf p = .elem) True
 
 def wfB (d : Doc) : Bool :=
   decide (∀ i, i < d.length → i < d.endOf i ∧ d.endOf i ≤ d.length) &&
@@ -274,12 +281,16 @@ def wfB (d : Doc) : Bool :=
   decide (∀ i, i < d.length → onOpt (d.parentOf i)
         (fun p => p < i ∧ i < d.endOf p ∧ d.isAttr p = false ∧ ∀ x, x < d.length → p < x → x < i → d.endOf x ≤ i) True) &&
   decide (∀ i, i < d.length → d.isAttr i = false → d.endOf i < d.length → d.isAttr (d.endOf i) = false) &&
-  decide (∀ n, n < d.length → ∀ m, m < d.length → (d.ancestors m).contains n = (decide (n < m) && decide (m < d.endOf n)))
+  decide (∀ n, n < d.length → ∀ m, m < d.length → (d.ancestors m).contains n = (decide (n < m) && decide (m < d.endOf n))) &&
+  decide (d.parentOf 0 = none ∧ d.isAttr 0 = false ∧ d.endOf 0 = d.length) &&
+  decide (∀ i, i < d.length → d.isAttr i = true → d.endOf i = i + 1 ∧
+        onOpt (d.parentOf i) (fun p => 0 < p ∧ ∀ j, j < d.length → p < j → j < i → d.isAttr j = true) False) &&
+  decide (∀ i, i < d.length → d.isAttr i = true → onOpt (d.parentOf i) (fun p => d.kindOf p = .elem) True)
 
 theorem wf_of_wfB (d : Doc) (h : d.wfB = true) : WF d := by
   simp only [wfB, Bool.and_eq_true, decide_eq_true_eq] at h
-  obtain ⟨⟨⟨⟨⟨⟨h1, h4⟩, h2⟩, h3⟩, h5⟩, h8⟩, hA⟩ := h
-  exact ⟨h1, h4, h2, h3, h5, h8, hA⟩
+  obtain ⟨⟨⟨⟨⟨⟨⟨⟨⟨h1, h4⟩, h2⟩, h3⟩, h5⟩, h8⟩, hA⟩, h0⟩, h9⟩, h10⟩ := h
+  exact ⟨h1, h4, h2, h3, h5, h8, hA, h0, h9, h10⟩
 
 end Doc
 end XalanModel.C02
